@@ -98,9 +98,13 @@ func writeEvidence(prop, tier string, seed uint64, a *WorkerOut, wall time.Durat
 		"wall_s":     wall.Seconds(),
 		"violations": nviol,
 	}
-	os.MkdirAll(filepath.Join(verifDir, "evidence"), 0o755)
+	dir := filepath.Join(verifDir, "evidence")
+	if d := os.Getenv("VERIF_EVIDENCE_DIR"); d != "" {
+		dir = d // exploratory background runs must not overwrite the registered evidence
+	}
+	os.MkdirAll(dir, 0o755)
 	b, _ := json.MarshalIndent(ev, "", " ")
-	if err := os.WriteFile(filepath.Join(verifDir, "evidence", prop+".json"), b, 0o644); err != nil {
+	if err := os.WriteFile(filepath.Join(dir, prop+".json"), b, 0o644); err != nil {
 		fmt.Println("cannot write evidence:", err)
 	}
 }
